@@ -148,6 +148,37 @@ def run(ctx):
     geoms = GEOMS + (GEOMS_T if ctx.tier == "thorough" else [])
     m = Model()
     try:
+        # short names in a DOUBLE-BYTE OEM code page (no long names): the 8-byte and the 3-byte field are decoded each on its own — a character
+        # takes two bytes, so "decode the 11 bytes, then cut at character 8" gives other names (C07-m8)
+        for ft in (12, 32):
+            names = [(b"\x93\xfa\x96\x7b\x8c\xea  DAT", b"nihongo" * 30), (b"\x93\x8c\x8b\x9e    JPG", b"tokyo" * 200), (b"A       TXT", b"a"),
+                     (b"\x83\x65\x83\x58\x83\x67  \x83\x65 ", b"tesuto")]
+            files, exp = [], {}
+            c = 5
+            for n11, data in names:
+                files.append((None, n11, 0x20, [c], data))
+                base, ext = n11[:8].decode("cp932").rstrip(), n11[8:].decode("cp932").rstrip()
+                exp["/" + base + ("." + ext if ext else "")] = ("f", len(data), data)
+                c += 2
+            img, info = fatspec.build(ft, clusters=120, spc=2, files=files)
+            meta = dict(source="build", ft=ft, clusters=120, spc=2, names="double-byte OEM short names (cp932)")
+            mnt = dict(encoding="cp932")
+            ir = ImplRun(img, **mnt)
+            res, _ = ir.mount()
+            ctx.evaluations += 1
+            ctx.dist["dbcs-short-names"] += 1
+            rep = dict(volume=meta, volume_label=f"foreign{ft}-dbcs", mount=mnt)
+            if res[0] != "ok":
+                ctx.violation(f"foreign{ft}-dbcs: valid foreign volume does not mount ({res[1]})", f"mount-failed:ft{ft}", rep)
+                continue
+            try:
+                w = ir.walk()
+                d = history.diff_trees(w, exp, "pyfatfs", "the volume as built")
+            except Exception as e:  # noqa
+                d = [f"walking the tree raised {type(e).__name__}: {e}"]
+            if d:
+                ctx.violation(f"foreign{ft}-dbcs (encoding cp932): {d[0]}", "foreign-tree:dbcs", dict(rep, diffs=d[:8]))
+            ir.op(["closefs"])
         for i in range(ctx.scale(len(GEOMS) * 2, len(geoms) * 12)):
             if ctx.time_left() < 10:
                 break
